@@ -129,6 +129,24 @@ func c09check(w *Worker, h []Op) {
 			}
 		}
 	}
+	// String() of a builder or buffer is its result with markers stripped (the other view of the same content)
+	func() {
+		defer func() { recover() }() // panics are reported by the implementation runs below
+		var b redact.StringBuilder
+		t := targetOf(&b)
+		var mb redact.ManualBuffer
+		for _, o := range h {
+			applyOp(t, o)
+			applyManual(&mb, o)
+		}
+		w.Eval(2)
+		if sv, want := b.String(), b.RedactableString().StripMarkers(); sv != want {
+			w.Violate("C09 string-view StringBuilder", "StringBuilder.String()="+q(sv)+" but RedactableString().StripMarkers()="+q(want)+" history="+historyString(h), cs())
+		}
+		if sv, want := mb.String(), mb.RedactableString().StripMarkers(); sv != want {
+			w.Violate("C09 string-view ManualBuffer", "ManualBuffer.String()="+q(sv)+" but RedactableString().StripMarkers()="+q(want)+" history="+historyString(h), cs())
+		}
+	}()
 	for _, im := range c09impls {
 		out, pan := im.run(h)
 		w.Eval(1)
